@@ -70,7 +70,7 @@ def main(argv):
             b = frag.encode("utf-8", "surrogatepass")
             if 0 < len(b) <= 16:
                 f.write('"' + "".join(f"\\x{c:02x}" for c in b) + '"\n')
-    args = [sys.argv[0], cdir, f"-runs={runs}", f"-max_len={max_len}", f"-seed={seed or 1}", f"-dict={dpath}", "-timeout=120", "-rss_limit_mb=4096", "-print_final_stats=0", "-verbosity=0"]
+    args = [sys.argv[0], cdir, f"-runs={runs}", f"-max_len={max_len}", f"-seed={seed or 1}", f"-dict={dpath}", "-timeout=120", "-rss_limit_mb=4096", "-print_final_stats=0", "-verbosity=0", f"-artifact_prefix={outdir}/"]
     atheris.Setup(args, one)
     flush()
     atheris.Fuzz()
